@@ -1,4 +1,5 @@
 import TantivyModel.Proofs.TopNHeap
+import TantivyModel.Proofs.Wand
 import TantivyModel.Proofs.Bm25Q
 /-!
 # C06 — Top-K collection returns exactly the best K, with deterministic ties
@@ -166,6 +167,39 @@ theorem C06_paging_partition {β : Type} (le : β → β → Bool) (K n : Nat) (
       rw [Nat.succ_mul, take_add]
   rw [key n, take_of_length_le (by rw [length_isort]; exact hn)]
 
+/-! ## the block-max WAND drivers, given the bound hypotheses -/
+
+/-- `block_wand_single_scorer` (TermQuery + TopDocs): for EVERY callback (any collector state, any
+threshold it returns) the driver makes exactly the calls the exhaustive loop makes and ends in the
+same state — it only skips documents not above the threshold — PROVIDED every block's stored
+bound really bounds the block's scores (`UB_block`; false across segments with different average
+field length, DESIGN §8 S3). -/
+theorem C06_wand_single_skipsBelow {σ : Type} (gt : α → α → Bool) (hgt : StrictWeak gt)
+    (cb : σ → Nat → α → σ × α) (blocks : List (Wand.Block α)) (hub : Wand.ubBlock gt blocks)
+    (st : σ × α) :
+    Wand.wandSingle gt cb st blocks = Wand.exhaustive gt cb st (blocks.flatMap (·.docs)) :=
+  Wand.wandSingle_eq_exhaustive gt hgt cb blocks hub st
+
+/-- the WAND pivot rule of `block_wand` (`find_pivot_doc`): with the term scorers sorted by their
+current document, no document before the pivot — and no document at all when there is no pivot —
+has a total score above the threshold, PROVIDED each term's scores are bounded by its
+`max_score` (`UB_max`; false on the pinned tree, `C06_UB_max_counterexample`). -/
+theorem C06_wand_pivot_sound (θ : Nat) (ts : List Wand.TermList) (hs : Wand.SortedByCur ts)
+    (hub : ∀ t, t ∈ ts → ∀ p, p ∈ t.postings → p.2 ≤ t.maxScore) :
+    (∀ piv, Wand.findPivot θ ts 0 = some piv → ∀ doc, doc < piv → Wand.totalScore ts doc ≤ θ) ∧
+    (Wand.findPivot θ ts 0 = none → ∀ doc, Wand.totalScore ts doc ≤ θ) := by
+  have h := Wand.findPivot_sound θ ts 0 (Nat.zero_le _) hs hub
+  simpa using h
+
+/-
+NOT YET PROVED (stated): `C06_wand_union_skipsBelow`, `C06_wand_intersection_skipsBelow` — the
+complete `block_wand` loop (block-max refinement of the pivot, `block_max_was_too_low_advance_one_scorer`,
+`align_scorers`, `advance_all_scorers_on_pivot`) and `block_wand_intersection` (leader windows,
+per-candidate suffix bounds) equal the exhaustive loop given `UB_max` and `UB_block`. Only the
+pivot rule above and the single-scorer driver are modelled; the multi-scorer drivers are tied to
+the property by the end-to-end comparison alone.
+-/
+
 /-! ## the score bounds (exact arithmetic) and the refuted hypothesis `UB_max` -/
 
 open TantivyModel.Bm25Q in
@@ -297,6 +331,20 @@ example : skipsBelow gtNat (Heap.new 1, none)
 example : search gtNat (selSorted gtNat) 2 1 [[⟨5, 0⟩, ⟨7, 1⟩, ⟨5, 2⟩], [⟨9, 100⟩, ⟨7, 101⟩]]
     = [⟨7, 1⟩, ⟨7, 101⟩] := by decide
 example : (List.range 3).flatMap (fun i => topK (le gtNat) 3 (i * 3) exDocs) = isort (le gtNat) exDocs := by
+  decide
+
+/-- a posting list of three blocks whose bounds hold; with threshold 6 the middle block is skipped -/
+def exBlocks : List (Wand.Block Nat) :=
+  [⟨[(0, 5), (3, 9)], 9⟩, ⟨[(7, 2), (8, 6)], 6⟩, ⟨[(20, 7)], 8⟩]
+example : Wand.ubBlock gtNat exBlocks := by
+  intro b hb p hp
+  simp only [exBlocks, mem_cons, not_mem_nil, or_false] at hb
+  rcases hb with rfl | rfl | rfl <;> simp at hp <;> rcases hp with rfl | rfl <;> decide
+/-- callback: remember the calls, raise the threshold to the offered score -/
+example : Wand.wandSingle gtNat (fun (s : List Nat) d sc => (s ++ [d], sc)) ([], 4) exBlocks
+    = ([0, 3], 9) := by decide
+def exTerms : List Wand.TermList := [⟨[(2, 3), (9, 1)], 3⟩, ⟨[(5, 4)], 4⟩, ⟨[(5, 2), (6, 2)], 2⟩]
+example : Wand.findPivot 5 exTerms 0 = some 5 ∧ Wand.totalScore exTerms 2 = 3 ∧ Wand.totalScore exTerms 5 = 6 := by
   decide
 
 end TantivyModel.C06
